@@ -21,12 +21,23 @@ namespace AslModel.CodeFile
 open AslModel.PFile
 
 /-- one entry of the processor table as far as the code file can see it: `id` stands for the `CPUVar` (two members of one
-family are different processors with the same header byte), `hdr` = `HeaderID`, `grans` = `Grans[]` -/
+family are different processors with the same header byte), `hdr` = `HeaderID`, `grans` = `Grans[]`, `lgrans` = `ListGrans[]`,
+`turn` = the value the processor's `SwitchTo_*` assigns to `TurnWords`.  `big` is not a variable of the program: it is the
+byte order the processor's data book / doc/pseudo-instructions.md states for multi-byte data (SPEC side, `Model/CodeOrder.lean`). -/
 structure Cpu where
   id : Nat
   hdr : Byte
   grans : List (Byte × Byte)
+  lgrans : List (Byte × Byte) := []
+  turn : Bool := false
+  big : Bool := false
 deriving DecidableEq, Repr, Inhabited
+
+/-- `ListGrans[seg]` (1 where nothing else is stated) -/
+def Cpu.lgran (c : Cpu) (seg : Byte) : Byte :=
+  match c.lgrans.lookup seg with
+  | some g => g
+  | none => 1
 
 /-- `Grans[seg]` (0 for an address space the processor does not have) -/
 def Cpu.gran (c : Cpu) (seg : Byte) : Byte :=
@@ -155,6 +166,6 @@ def CtlsWF (s : CS) : List Ctl → Prop
 
 /-- the globals in front of the first statement: the default target's context `c` with the counter of its space at `pc0` -/
 def csInit (c : Ctx) (pc0 : Nat) : CS :=
-  { cpu := ⟨0, c.cpu, [(c.seg, c.gran)]⟩, actPC := c.seg, pcs := fun k => if k = c.seg then pc0 else 0, saves := [] }
+  { cpu := { id := 0, hdr := c.cpu, grans := [(c.seg, c.gran)] }, actPC := c.seg, pcs := fun k => if k = c.seg then pc0 else 0, saves := [] }
 
 end AslModel.CodeFile
